@@ -154,7 +154,8 @@ class DefExpandGatherer:
         def_expand_group.sort()
 
         if def_group_contents:
-            if def_group_contents != def_expand_group:
+            # Sort the expected contents too: filling in the placeholder can change the order of the stored copy.
+            if def_group_contents.sorted() != def_expand_group:
                 self.errors.setdefault(def_tag_name.casefold(), []).append(def_expand_group.get_first_group())
             return True
 
